@@ -122,9 +122,19 @@ type gatedReader struct {
 	progress *int64
 	cutDone  bool
 	withheld bool
+	// zeroEvery > 0: every zeroEvery-th Read returns (0, nil), which io.Reader allows ("nothing happened", not EOF)
+	zeroEvery int
+	reads     int
+	// cancel-stall: after cancelling, the stream delivers nothing more and the Read does not return until 'stall' is closed
+	stall     chan struct{}
+	cancelled chan struct{}
 }
 
 func (g *gatedReader) Read(p []byte) (int, error) {
+	g.reads++
+	if g.zeroEvery > 0 && g.reads%g.zeroEvery == 0 && len(p) > 0 {
+		return 0, nil
+	}
 	if g.pauseAt >= 0 && g.pos >= g.pauseAt {
 		g.once.Do(func() {
 			close(g.reached)
@@ -145,6 +155,14 @@ func (g *gatedReader) Read(p []byte) (int, error) {
 			return 0, io.EOF
 		case "readerror":
 			return 0, errStream
+		case "cancel-stall":
+			if g.cancel != nil {
+				g.cancel()
+				g.cancel = nil
+				close(g.cancelled)
+			}
+			<-g.stall // a pipe or connection that delivered part of an entry and then nothing
+			return 0, io.EOF
 		case "cancel":
 			if g.cancel != nil {
 				g.cancel()
@@ -302,6 +320,9 @@ func c13cases(env *core.Env) []c13case {
 			for _, mode := range []string{"truncate", "readerror", "cancel"} {
 				cs = append(cs, c13case{Part: "cut", Archive: ai, Cut: cut, Mode: mode})
 			}
+			if cut%3 == 0 {
+				cs = append(cs, c13case{Part: "cut", Archive: ai, Cut: cut, Mode: "cancel-stall"})
+			}
 			if ai%3 == 2 && ai < 3 { // all entries of this archive are small: only background writers touch the (held back) destination
 				cs = append(cs, c13case{Part: "cut", Archive: ai, Cut: cut, Mode: "cancel", Gate: true}, c13case{Part: "cut", Archive: ai, Cut: cut, Mode: "readerror", Gate: true})
 			}
@@ -321,8 +342,8 @@ func init() {
 	core.Register(&core.Prop{
 		ID:    "C13",
 		Level: "fault_enumeration",
-		Rule: "the harness is the stream: a gated io.Reader delivers three archives (directories, small files, files beyond the 150 KiB small buffer, 26 small files in a row) block by block and, at every chosen cut point (every header, body start, middle, last byte and end of every entry, plus a grid over the stream; every 512-byte block in thorough), truncates the stream, fails it, or cancels the context, while 1..8 opener goroutines started at a pause point before the cut call Open for every entry (already delivered, being delivered, not yet reached), a directory and a missing name; the delivery after the cut is withheld briefly so that whatever the tar FS announces at that moment is observed. " +
-			"Oracle: an Open that succeeds on a regular entry must deliver exactly the entry's bytes; every Open and Done() must have returned once the stream has ended (watchdog + goroutine dump). The same with a failure injected at every destination call index (Mkdir, Chmod, OpenFile, Write, Close), and free-running openers against an undisturbed stream under the race detector. pubsub and bufferPool are driven directly through the verif hooks: every Wait returns once its key was emitted or the context ended; buffers outstanding never exceed the capacity. Non-trivial: all cut/fault cases in which at least one Open was pending when the fault happened; distinct by case parameters",
+		Rule: "the harness is the stream: a gated io.Reader delivers three archives (directories, small files, files beyond the 150 KiB small buffer, 26 small files in a row) block by block and, at every chosen cut point (every header, body start, middle, last byte and end of every entry, plus a grid over the stream; every 512-byte block in thorough), truncates the stream, fails it, cancels the context, or cancels it and then stalls inside the Read (Opens must still return), while 1..8 opener goroutines started at a pause point before the cut call Open for every entry (already delivered, being delivered, not yet reached), a directory and a missing name; the delivery after the cut is withheld briefly so that whatever the tar FS announces at that moment is observed. " +
+			"Oracle: an Open that succeeds on a regular entry must deliver exactly the entry's bytes; every Open and Done() must have returned once the stream has ended (watchdog + goroutine dump). The same with a failure injected at every destination call index (Mkdir, Chmod, OpenFile, Write, Close), and free-running openers against an undisturbed stream under the race detector (a third of those streams return (0, nil) from some Reads, as io.Reader allows). pubsub and bufferPool are driven directly through the verif hooks: every Wait returns once its key was emitted or the context ended; buffers outstanding never exceed the capacity. Non-trivial: all cut/fault cases in which at least one Open was pending when the fault happened; distinct by case parameters",
 		Assumptions: []string{"the 150 ms withholding after a cut only widens the observation window; no verdict depends on it", "destination is a mem.FS behind the fault wrapper"},
 		NumCases:    func(env *core.Env) int { return len(c13cases(env)) },
 		Batch:       25,
@@ -405,6 +426,34 @@ func c13drive(a *c13archive, g *gatedReader, dest *faultDest, ctx context.Contex
 	time.Sleep(time.Millisecond) // let the openers block inside Open
 	if g.pauseAt >= 0 {
 		close(g.resume)
+	}
+	if g.mode == "cancel-stall" {
+		// the caller cancelled while the stream is stalled inside a Read that will not return: every Open must return all
+		// the same (Done() cannot: the reader goroutine is inside the stalled Read, so it is not demanded here)
+		select {
+		case <-g.cancelled:
+			opened := make(chan struct{})
+			go func() { wg.Wait(); close(opened) }()
+			select {
+			case <-opened:
+				res.Count("opens_returned_while_stream_stalled", 1)
+			case <-time.After(20 * time.Second):
+				pending := 0
+				mu.Lock()
+				for _, o := range opens {
+					if !o.done {
+						pending++
+					}
+				}
+				mu.Unlock()
+				close(g.stall)
+				res.Violate(sigBase+"|blocked-after-cancel", fmt.Sprintf("20 s after the caller cancelled (the stream stalled inside a Read) %d Open calls have not returned", pending), wit)
+				return
+			}
+		case <-t.Done():
+		case <-time.After(20 * time.Second):
+		}
+		close(g.stall)
 	}
 	// bounded progress: Done() and every Open must return once the stream has ended
 	finished := make(chan struct{})
@@ -511,7 +560,7 @@ func c13run(env *core.Env, idx int) core.CaseResult {
 		if pause < 0 {
 			pause = 0
 		}
-		g := &gatedReader{a: a, cutAt: cs.Cut, mode: cs.Mode, cancel: cancel, pauseAt: pause, reached: make(chan struct{}), resume: make(chan struct{}), afterCut: make(chan struct{}), progress: &progress}
+		g := &gatedReader{a: a, cutAt: cs.Cut, mode: cs.Mode, cancel: cancel, pauseAt: pause, reached: make(chan struct{}), resume: make(chan struct{}), afterCut: make(chan struct{}), progress: &progress, stall: make(chan struct{}), cancelled: make(chan struct{})}
 		where := c13where(a, cs.Cut)
 		sig := fmt.Sprintf("C13|cut|%s|%s", cs.Mode, where)
 		var dest *faultDest
@@ -528,7 +577,13 @@ func c13run(env *core.Env, idx int) core.CaseResult {
 		if cs.Rep%3 == 0 {
 			g.pauseAt, g.reached, g.resume = (cs.Rep*1536)%len(a.data), make(chan struct{}), make(chan struct{})
 		}
-		c13drive(a, g, nil, context.Background(), 1+r.Intn(8), r, &res, "C13|race|undisturbed", cs)
+		sig := "C13|race|undisturbed"
+		if cs.Rep%3 == 1 {
+			g.zeroEvery = 2 + cs.Rep%5 // a source that now and then returns (0, nil): "nothing happened", not end of stream
+			sig = "C13|race|undisturbed,empty-reads"
+			res.Count("streams_with_empty_reads", 1)
+		}
+		c13drive(a, g, nil, context.Background(), 1+r.Intn(8), r, &res, sig, cs)
 		res.Nontrivial = true
 	case "destfault":
 		// count the destination calls of a clean unpacking, then fail each in turn
